@@ -1179,14 +1179,14 @@ func runB8(p *an.Prog, r *an.Result) {
 			if ex, ok := val.(*ssa.Extract); ok && ex.Index == 0 {
 				if c, ok := ex.Tuple.(*ssa.Call); ok && an.CallName(&c.Call) == "(render.Context).Evaluate" {
 					for _, o := range originsThroughCaptures(p, c.Call.Args[0]) {
-						if strings.HasSuffix(describe(p, an.Strip(o)), "Assignment.ValueFn") {
+						if strings.HasSuffix(describe(p, an.Strip(o)), "Assignment.ValueFn") || isFieldOf(an.Strip(o), "expressions", "Assignment", "ValueFn") {
 							okVal = true
 						}
 					}
 				}
 			}
 			for _, o := range originsThroughCaptures(p, s.Call.Args[0]) {
-				if strings.HasSuffix(describe(p, o), "Assignment.Variable") {
+				if strings.HasSuffix(describe(p, o), "Assignment.Variable") || isFieldOf(an.Strip(o), "expressions", "Assignment", "Variable") {
 					okKey = true
 				}
 			}
@@ -1295,6 +1295,32 @@ func runB9(p *an.Prog, r *an.Result) {
 	// filename = filepath.Join(filepath.Dir(ctx.SourceFile()), rel)
 	fnArg := rf[0].Call.Args[0]
 	okJoin, okDir, okRel := false, false, false
+	// the name may be composed by a helper of the package: its one result, with its parameters
+	// standing for the arguments of the call
+	bind := func(v ssa.Value) ssa.Value { return v }
+	if hc, ok := fnArg.(*ssa.Call); ok {
+		if h := hc.Call.StaticCallee(); h != nil && h.Blocks != nil && p.InModule(h) && h.Signature.Results().Len() == 1 {
+			var rets []*ssa.Return
+			an.EachInstr(h, func(in ssa.Instruction) {
+				if ret, ok := in.(*ssa.Return); ok {
+					rets = append(rets, ret)
+				}
+			})
+			if len(rets) == 1 {
+				fnArg = resultsOf(rets[0])[0]
+				bind = func(v ssa.Value) ssa.Value {
+					if par, ok := v.(*ssa.Parameter); ok {
+						for i, pp := range h.Params {
+							if pp == par && i < len(hc.Call.Args) {
+								return hc.Call.Args[i]
+							}
+						}
+					}
+					return v
+				}
+			}
+		}
+	}
 	if c := an.CallOf(fnArg); c != nil && an.CallName(c) == "path/filepath.Join" {
 		okJoin = true
 		// variadic slice elements
@@ -1324,12 +1350,12 @@ func runB9(p *an.Prog, r *an.Result) {
 		}
 		if len(elems) == 2 {
 			if d := an.CallOf(elems[0]); d != nil && an.CallName(d) == "path/filepath.Dir" {
-				if s := an.CallOf(d.Args[0]); s != nil && an.CallName(s) == "(render.Context).SourceFile" {
+				if s := an.CallOf(bind(d.Args[0])); s != nil && an.CallName(s) == "(render.Context).SourceFile" {
 					okDir = true
 				}
 			}
 			// rel: the checked string assertion of the evaluated argument
-			if ex, ok := elems[1].(*ssa.Extract); ok && ex.Index == 0 {
+			if ex, ok := bind(elems[1]).(*ssa.Extract); ok && ex.Index == 0 {
 				if ta, ok := ex.Tuple.(*ssa.TypeAssert); ok && ta.CommaOk {
 					if b, ok := ta.AssertedType.(*types.Basic); ok && b.Kind() == types.String {
 						for _, o := range an.Origins(ta.X, an.StepValue) {
@@ -2458,4 +2484,24 @@ func inlineMinMax(fn *ssa.Function) (string, ssa.Value, ssa.Value, bool) {
 		}
 	}
 	return "", nil, nil, false
+}
+
+// isFieldOf: v is a read of field `field` of a struct of the named module type (through a pointer, a
+// local copy or a struct value).
+func isFieldOf(v ssa.Value, pkg, typ, field string) bool {
+	var owner types.Type
+	idx := -1
+	switch x := v.(type) {
+	case *ssa.UnOp:
+		if fa, ok := x.X.(*ssa.FieldAddr); ok {
+			owner, idx = fa.X.Type().Underlying().(*types.Pointer).Elem(), fa.Field
+		}
+	case *ssa.Field:
+		owner, idx = x.X.Type(), x.Field
+	}
+	if owner == nil || !isNamedIn(owner, pkg, typ) {
+		return false
+	}
+	st, ok := owner.Underlying().(*types.Struct)
+	return ok && idx < st.NumFields() && st.Field(idx).Name() == field
 }
